@@ -775,3 +775,85 @@ def c07_index_remap(ctx, repo):
             via = sorted(anystore.get(fld, ()))
             ok = direct or bool(via)
             ctx.ob("REMAP-IDX", "subset/__init__.py:<module>", f"{cname}.{fld} (index into {INDEX_FIELDS[fld]}) is renumbered" + (" by its own subset method" if direct else f" by {via[:2]}"), ok, "" if ok else "index field is never rewritten although the list it points into is pruned: it refers to the wrong or a removed entry")
+
+
+# OpenType GSUB: lookup types whose output has exactly one glyph per input glyph
+GSUB_ONE_TO_ONE = {"SingleSubst", "AlternateSubst", "ReverseChainSingleSubst"}
+
+
+def c07_closure_registry(ctx, repo):
+    ctx.rule("SUB-1to1", "may_have_non_1to1 is defined for every GSUB lookup class and is constant False exactly for the lookup types that substitute one glyph by one glyph (single, alternate, reverse chaining single); everything else must make contextual closure treat later positions as unknown", floor=8)
+    ctx.rule("F22-hvar", "the HVAR and VVAR subsetters are mirror images (Width<->Height, Lsb<->Tsb, Rsb<->Bsb; VVAR additionally handles VOrgMap)", floor=1)
+    sc = load_schema(repo)
+    inj = subset_injections(repo)
+    for typ, cname in sorted(sc.lookup_types["GSUB"].items()):
+        f = inj.get("ot:" + cname, {}).get("may_have_non_1to1")
+        if f is None:
+            ctx.ob("SUB-1to1", "subset/__init__.py:<module>", f"GSUB type {typ} {cname}.may_have_non_1to1 defined", False, "contextual closure would fail with AttributeError / skip this type")
+            continue
+        rets = [norm(n.value) for n in ast.walk(f.node) if isinstance(n, ast.Return)]
+        const_false = rets == ["False"]
+        const_true = rets == ["True"]
+        if cname in GSUB_ONE_TO_ONE:
+            ok = const_false
+            why = "a 1-to-1 substitution is declared length-changing (harmless but imprecise)" if not ok else ""
+            ok = const_false or const_true  # over-approximating is sound for closure
+        elif cname == "ExtensionSubst":
+            ok = any("ExtSubTable.may_have_non_1to1()" in r for r in rets)
+            why = "" if ok else "extension lookups must delegate to the wrapped subtable"
+        else:
+            ok = const_true
+            why = "" if ok else f"{cname} can change the number of glyphs; declaring it 1-to-1 makes the closure follow the wrong glyph at later positions"
+        ctx.ob("SUB-1to1", f.where, f"{cname}.may_have_non_1to1 returns {rets}", ok, why)
+    # mirror HVAR/VVAR
+    hv = inj.get("tt:HVAR", {}).get("subset_glyphs")
+    vv = inj.get("tt:VVAR", {}).get("subset_glyphs")
+    if hv is None or vv is None:
+        raise AnalysisError("HVAR/VVAR subset_glyphs not found")
+    MAP = {"AdvWidthMap": "AdvHeightMap", "LsbMap": "TsbMap", "RsbMap": "BsbMap"}
+
+    def stmts(f, mapping=None):
+        out = []
+
+        def rec(body):
+            for st in body:
+                if isinstance(st, ast.Expr) and isinstance(st.value, ast.Constant):
+                    continue
+                if isinstance(st, ast.If):
+                    t = norm(st.test)
+                    out.append("if " + t)
+                    rec(st.body)
+                    if st.orelse:
+                        out.append("else")
+                        rec(st.orelse)
+                    out.append("endif")
+                else:
+                    out.append(norm(st))
+
+        rec(f.node.body)
+        if mapping:
+            res = []
+            for s_ in out:
+                for a, b in mapping.items():
+                    s_ = s_.replace(a, b)
+                res.append(s_)
+            return res
+        return out
+
+    a = stmts(hv, MAP)
+    b = stmts(vv)
+    # drop VOrgMap-only statements (and their if/endif frame) from the vertical side
+    b2 = []
+    skip = 0
+    for s_ in b:
+        if s_.startswith("if ") and "VOrgMap" in s_:
+            skip += 1
+            continue
+        if skip:
+            if s_ == "endif":
+                skip -= 1
+            continue
+        b2.append(s_)
+    diff = [(x, y) for x, y in zip(a, b2) if x != y]
+    ok = len(a) == len(b2) and not diff
+    ctx.ob("F22-hvar", vv.where, f"HVAR.subset_glyphs mapped to vertical names == VVAR.subset_glyphs minus VOrgMap ({len(a)} statements)", ok, "" if ok else f"the twins differ: {diff[:1] or (len(a), len(b2))}")
